@@ -29,11 +29,32 @@ import (
 	"verif/engine/sym"
 )
 
-const (
-	repoDir   = "/repo"
-	verifDir  = "/verif"
-	modPrefix = "github.com/getkin/kin-openapi"
+const modPrefix = "github.com/getkin/kin-openapi"
+
+// repoDir is the tree under check (/repo; VERIF_REPO overrides it for
+// development runs against a scratch worktree, in which case evidence goes
+// to .work/ and not to evidence/). verifDir is the directory holding
+// harness/, known_findings.json, evidence/ (the parent of bin/).
+var (
+	repoDir     = "/repo"
+	verifDir    = "/verif"
+	scratchRepo = false
 )
+
+func init() {
+	if v := os.Getenv("VERIF_REPO"); v != "" && v != "/repo" {
+		repoDir = v
+		scratchRepo = true
+	}
+	if v := os.Getenv("VERIF_DIR"); v != "" {
+		verifDir = v
+	} else if exe, err := os.Executable(); err == nil {
+		d := filepath.Dir(filepath.Dir(exe))
+		if _, err := os.Stat(filepath.Join(d, "harness", "rt")); err == nil {
+			verifDir = d
+		}
+	}
+}
 
 // Harness is one registered harness function.
 type Harness struct {
@@ -822,12 +843,15 @@ func writeEvidence(id, tier string, seed int, reports []*harnessReport, confirme
 		"violations": confirmed,
 	}
 	b, _ := json.MarshalIndent(ev, "", " ")
-	os.MkdirAll(filepath.Join(verifDir, "evidence"), 0o755)
-	if err := os.WriteFile(filepath.Join(verifDir, "evidence", id+".json"), b, 0o644); err != nil {
+	evDir := filepath.Join(verifDir, "evidence")
+	if scratchRepo {
+		evDir = filepath.Join(verifDir, ".work", "scratch-evidence")
+	}
+	os.MkdirAll(evDir, 0o755)
+	if err := os.WriteFile(filepath.Join(evDir, id+".json"), b, 0o644); err != nil {
 		fatal(err)
 	}
 }
-
 
 func explanationFor(id string) string {
 	if id == "C15" {
